@@ -24,11 +24,12 @@ type Job struct {
 	Policy     int
 	MaxPaths   int
 	MaxSteps   int64
-	MaxQueries int      // solver query budget of the job (0: none); exceeding it ends the job as incomplete
-	MaxConc    int      // bound on the values a symbolic index is concretised to (0: 4)
-	Choices    []int    // forced values of the first vp.Choice calls (splits one history space over several jobs)
-	RawTerms   bool     // no canonicalising rewrites: every obligation goes to the solver as written
-	Covers     []string // cover points that must be reached by some path (vacuity guard)
+	MaxQueries int            // solver query budget of the job (0: none); exceeding it ends the job as incomplete
+	MaxConc    int            // bound on the values a symbolic index is concretised to (0: 4)
+	Named      map[string]int // forced values of vp.Choice calls by name
+	Choices    []int          // forced values of the first vp.Choice calls (splits one history space over several jobs)
+	RawTerms   bool           // no canonicalising rewrites: every obligation goes to the solver as written
+	Covers     []string       // cover points that must be reached by some path (vacuity guard)
 	Note       string
 }
 
@@ -41,24 +42,25 @@ type Finding struct {
 }
 
 type JobResult struct {
-	Job        *Job
-	Paths      int
-	Dead       int
-	Steps      int64
-	Forks      int
-	Merges     int
-	MergeFail  int
-	Asserts    int
-	SymAsserts int
-	Queries    int
-	SolverTime time.Duration
-	Wall       time.Duration
-	Findings   []Finding
-	Inconcl    []string // unknown / unsupported / budget on paths / engine errors
-	Covers     map[string]int
-	Funcs      map[string]int
-	Incomplete bool // path budget hit
-	Vars       int
+	Job              *Job
+	Paths            int
+	Dead             int
+	Steps            int64
+	Forks            int
+	Merges           int
+	MergeFail        int
+	Asserts          int
+	SymAsserts       int
+	PathsWithAsserts int // distinct symbolic paths (decision prefixes) that evaluated at least one assertion
+	Queries          int
+	SolverTime       time.Duration
+	Wall             time.Duration
+	Findings         []Finding
+	Inconcl          []string // unknown / unsupported / budget on paths / engine errors
+	Covers           map[string]int
+	Funcs            map[string]int
+	Incomplete       bool // path budget hit
+	Vars             int
 }
 
 var digits = regexp.MustCompile(`-?[0-9]+`)
@@ -171,8 +173,10 @@ func (p *Pool) runJob(j *Job, solverp **sym.Solver) (r *JobResult) {
 		st.Policy = j.Policy
 		st.MaxConc = j.MaxConc
 		st.ForcedChoices = j.Choices
+		st.ForcedNamed = j.Named
 		if p.Verbose {
 			st.ForkSites = forkSites
+			st.MergeDebug = forkSites
 		}
 		if j.MaxSteps > 0 {
 			st.MaxSteps = j.MaxSteps
@@ -210,6 +214,9 @@ func (p *Pool) runJob(j *Job, solverp **sym.Solver) (r *JobResult) {
 		r.Forks += st.Forks
 		r.Merges += st.Merges
 		r.MergeFail += st.MergeFail
+		if st.Asserts > 0 {
+			r.PathsWithAsserts++
+		}
 		r.Asserts += st.Asserts
 		r.SymAsserts += st.SymAsserts
 		for k, v := range st.Funcs {
